@@ -70,8 +70,9 @@ class Both:
     def __int__(s): return s.n
 class MyInt(int): pass
 class MyIntOv(int):
-    def __int__(s): return 99
-    def __index__(s): return 98
+    # an int of value v whose conversion hooks lie: C integer conversion must use the value itself
+    def __int__(s): return int.__int__(s) + 1
+    def __index__(s): return int.__int__(s) + 2
 class SStr(str): pass
 class SBytes(bytes): pass
 def _plain(r):
@@ -104,7 +105,7 @@ def harness_namespace():
 
 def reference_rule(kind, v, lo, hi):
     """The spec's Ref evaluated with Python integers: kind is the *model* kind of the object."""
-    if kind in ("pylong", "index_only", "both_same", "both_differ"):
+    if kind in ("pylong", "sublong_ov", "index_only", "both_same", "both_differ"):
         return v if lo <= v <= hi else "E:OverflowError"
     return "E:TypeError"
 
@@ -112,7 +113,7 @@ def reference_rule(kind, v, lo, hi):
 def python_oracle(obj, lo, hi):
     """P: CPython's own notion of `is an integer` (operator.index), then the range test."""
     try:
-        v = operator.index(obj)
+        v = int.__index__(operator.index(obj))     # (an int subclass instance is returned as is: take its value)
     except TypeError:
         return "E:TypeError"
     return v if lo <= v <= hi else "E:OverflowError"
